@@ -23,7 +23,8 @@ THOROUGH_RUNS = 400000
 LEVEL = "exploration"
 RULE = ("one run = one structured concurrent program (threads spawning threads / preserve_context / "
         "serialize+continue_task, or asyncio tasks spawning tasks) executed under one seeded interleaving; "
-        "10% of programs are re-executed under 3 more interleavings and the canonical forests compared. "
+        "10% of programs are re-executed under 3 more interleavings and the canonical forests compared; 8% run with a "
+        "destination failing for messages chosen by content, also under 4 interleavings, reports included in the comparison. "
         "distinct = distinct (program shape, schedule signature); non-trivial = >= 1 context switch "
         "(threads) or >= 2 concurrently live tasks with pauses (async).")
 REAL = base.REAL
